@@ -146,9 +146,10 @@ def wt(x: float, t: float) -> float:
     b = phi_major(t - xx) - phi_major(-t - xx)
     if b < sys.float_info.epsilon:
         return 1.0
-    return ((t - xx) * phi_minor(t - xx) + (t + xx) * phi_minor(-t - xx)) / b + vt(
-        x, t
-    ) * vt(x, t)
+    a = phi_minor(-t - xx) - phi_minor(t - xx)
+    return ((t - xx) * phi_minor(t - xx) + (t + xx) * phi_minor(-t - xx)) / b + (
+        a / b
+    ) ** 2
 
 
 def _ladder_pairs(teams: List[Any]) -> List[List[Any]]:
